@@ -320,6 +320,8 @@ inline void campaign(const char* wlname, const Args& a, vh::Rng& rng, const char
   }
   unsigned maxT = galois::substrate::getThreadPool().getMaxThreads();
   bool ctl = a.mode == "ctl";
+  const char* em = getenv("VERIF_FE_MULT");   // a check may ask for more executions per worklist
+  if (em) mult *= atoi(em) > 0 ? atoi(em) : 1;
   int execs = mult * (ctl ? (a.thorough ? 120 : 14) : (a.thorough ? 30 : 5));
   bool level = std::string(kind) != "plain";
   for (int e = 0; e < execs; ++e) {
